@@ -29,7 +29,7 @@ def judge(ctx, r):
 
 def run(ctx):
     styles = STYLES + (["capture"] if ctx.thorough else [])
-    runs = C.explore(ctx, ctx.n(120, 4000), 12, styles, p_invalid=0.2)
+    runs = C.explore(ctx, ctx.n(600, 8000), 12, styles, p_invalid=0.2)
     for r in runs:
         ctx.case((r.desc, str(C.jsonable_hist(r.hist))), nontrivial=C.nontrivial_history(r),
                  sample=dict(start=r.desc, ops=[s["op"][0] + ":" + s["real"] for s in r.steps]), tags=C.history_tags(r))
